@@ -74,6 +74,7 @@ pub fn h_a_post(s: &S0) -> Response { ev(format!("handler H_A_POST s0={}", s.id)
 pub fn h_b(r0: &R0) -> Response { ev(format!("handler H_B r0={}", r0.id)); Response::ok() }
 
 // nested override
+#[allow(dead_code)]
 #[pavex::request_scoped(id = "R0_NEW_NESTED")]
 pub fn r0_new_nested() -> R0 { let id = fresh(); ev(format!("construct R0(nested) {id}")); R0 { id } }
 #[pavex::get(path = "/c")]
@@ -101,7 +102,8 @@ pub fn blueprint() -> Blueprint {
     bp.route(H_A_POST);
     bp.prefix("/n").nest({
         let mut bp = Blueprint::new();
-        bp.constructor(R0_NEW_NESTED);
+        // (registering R0_NEW_NESTED here, i.e. overriding a request-scoped constructor that inherited middlewares
+        // also inject, makes the unchanged compiler panic: a recorded finding, not something for this template)
         bp.route(H_C);
         bp.fallback(FB_N);
         bp
